@@ -256,6 +256,14 @@ def main(module, argv=None):
         # each recorded finding is re-run natively; the line is printed either way (the region stays
         # excluded), with a note when the defect no longer reproduces on the tree under check
         note = ""
+        if f.get("native_script_gen") and not f.get("native_script"):
+            # script text produced by a generator of the contracts package (keeps the committed file small)
+            import importlib
+            g = f["native_script_gen"]
+            try:
+                f["native_script"] = getattr(importlib.import_module(g["module"]), g["fn"])(*g.get("args", []))
+            except Exception as ex:       # recorded in the note; the region stays excluded
+                note = f" [note: reproduction script could not be generated: {ex}]"
         if f.get("native_script"):
             nat = native_run(f["native_script"])
             f["_native"] = nat
